@@ -110,8 +110,8 @@ queries of `FragQ2` with the empty clause; the second alternative only keeps `Fr
 def toksSel (d : Gen.D) (q : Query) : List Tok := if TDM2.FragStmt d (.select q) then TDM2.toksStmt d (.select q) else TQ2.toksQ2 d noX q
 def selOK (d : Gen.D) (q : Query) : Bool := TDM2.FragStmt d (.select q) || TQ2.FragQ2 d q
 /-- `CREATE TABLE t AS [WITH …] <query>` -/
-def toksCreateAs (d : Gen.D) (t : TableName) (q : Query) : List Tok :=
-  opTok "CREATE" :: opTok "TABLE" :: tbl t :: opTok "AS" :: toksSel d q
+def toksCreateAs (d : Gen.D) (t : TableName) (ine : Bool) (q : Query) : List Tok :=
+  opTok "CREATE" :: opTok "TABLE" :: ((if ine then [opTok "IF", opTok "NOT", opTok "EXISTS"] else []) ++ (tbl t :: opTok "AS" :: toksSel d q))
 
 /-- **the token-level printer of the new statement classes** -/
 def toksRest (d : Gen.D) : Stmt → List Tok
@@ -125,7 +125,7 @@ def toksRest (d : Gen.D) : Stmt → List Tok
   | .showDatabases => [opTok "SHOW", opTok "DATABASES"]
   | .showTables => [opTok "SHOW", opTok "TABLES"]
   | .showColumns fr wh => toksShowColumns d fr wh
-  | .createTableAs t q => toksCreateAs d t q
+  | .createTableAs t ine q => toksCreateAs d t ine q
   | _ => []
 
 /-! ### the fragment -/
@@ -153,7 +153,7 @@ def FragRest (d : Gen.D) : Stmt → Bool
   | .showDatabases => true
   | .showTables => true
   | .showColumns fr wh => TQ2.fromOK4 d (some fr) && TQ2.FragO4 d wh
-  | .createTableAs t q => TDM2.tblOKD t && selOK d q
+  | .createTableAs t _ q => TDM2.tblOKD t && selOK d q
   | _ => false
 
 /-! ### the union -/
